@@ -161,8 +161,57 @@ def run(ctx, idx):
         else:
             why = "flag set exactly in the result-less command production (%s)" % m.name
     ctx.ob("C16.c", con, pmod.rel, true_sets[0][1].lineno if true_sets else pcls.node.lineno, ok, why)
+    parser_state(ctx, idx, "C16.c")
     pp = pcls.methods.get("p_program")
     if pp is not None:
         s = K.src(pp.node)
         ok = "2 if self.eems_v2 else 3" in s
         ctx.ob("C16.c", "mpilot/parser/parser.py::Parser.p_program::version", pmod.rel, pp.node.lineno, ok, "program node reports 2 iff the flag is set" if ok else "p_program does not report version 2 exactly when the flag is set")
+
+
+def parser_state(ctx, idx, rule):
+    """Per-parse state written by grammar actions (e.g. the EEMS 2.0 flag) must not survive into the next parse."""
+    pmod = idx.module_of("mpilot.parser.parser")
+    pcls = pmod.classes["Parser"]
+    written = {}
+    for name, m in pcls.methods.items():
+        if not name.startswith("p_"):
+            continue
+        sn = K.self_name(m)
+        for n in own_nodes(m.node):
+            if isinstance(n, (ast.Assign, ast.AugAssign)):
+                tg = n.targets if isinstance(n, ast.Assign) else [n.target]
+                for t in tg:
+                    if isinstance(t, ast.Attribute) and isinstance(t.value, ast.Name) and t.value.id == sn:
+                        written.setdefault(t.attr, m)
+    parse = pcls.methods.get("parse")
+    if parse is None:
+        raise AnalysisError("Parser.parse vanished")
+    cfg = K.cfg_of(idx, parse)
+    sn = K.self_name(parse)
+    calls = cfg.find("call", lambda n: isinstance(n.ast.func, ast.Attribute) and n.ast.func.attr == "parse" and n.ast.func.value is not None and K.src(n.ast.func.value).startswith(sn + "."))
+    # call sites of Parser.parse in the package: is the receiver a freshly built Parser?
+    fresh_everywhere = True
+    stale_site = None
+    n_sites = 0
+    for mod, f, n in K.scoped_nodes(idx):
+        if isinstance(n, ast.Call) and isinstance(n.func, ast.Attribute) and n.func.attr == "parse" and f is not None and not (f.cls is pcls):
+            recv = n.func.value
+            q = idx.qualname(mod, recv.func, f) if isinstance(recv, ast.Call) else None
+            is_parser_call = bool(q and q.endswith("parser.Parser"))
+            if "parser" in K.src(recv).lower() or is_parser_call:
+                n_sites += 1
+                if not is_parser_call:
+                    fresh_everywhere = False
+                    stale_site = (mod, n)
+    for attr, m in sorted(written.items()):
+        resets = cfg.find("store", lambda x: x.meta.get("attr") == attr and isinstance(x.ast.value, ast.Name) and x.ast.value.id == sn)
+        reset_ok = bool(resets) and bool(calls) and all(cfg.must_pass_through(cfg.entry, c, set(resets)) for c in calls)
+        con = "%s::Parser::per-parse-state(%s)" % (pmod.rel, attr)
+        if reset_ok:
+            ctx.hold(rule, con, pmod.rel, parse.node.lineno, "`%s` is reset at the start of every parse" % attr)
+        elif fresh_everywhere and n_sites:
+            ctx.hold(rule, con, pmod.rel, m.node.lineno, "`%s` is never reset by parse(), but every load builds a fresh Parser (%d call site(s))" % (attr, n_sites))
+        else:
+            mod, n = stale_site if stale_site else (pmod, parse.node)
+            ctx.violate(rule, con, mod.rel, n.lineno, "`%s` is set by the grammar action %s and never reset, and `%s` reuses a parser object: after one EEMS 2.0 file every later file is treated as EEMS 2.0 and loses its NewFieldName/OutFileName arguments" % (attr, m.name, K.src(n)[:50]))
